@@ -94,7 +94,7 @@ Section Families.
     Variable cols : list (list item).
     Hypothesis cols_sound : forall j x, In x (nth j cols []) -> chart j x.
 
-    Notation pc_sound := (pc_sound G tok tmatch start w i).
+    Notation pc_sound := (pc_sound chart i).
 
     Lemma step_fams_sound x col work scan held :
       pc_sound (mkPC col (x :: work) scan held) -> Fok (step_fams i cols x (mkPC col work scan held)).
@@ -130,7 +130,8 @@ Section Families.
       - discriminate.
       - inversion H; subst; auto.
       - eapply IH; [| |exact H].
-        + apply (step_sound G predictions tok tmatch start w pred_sound i cols cols_sound); auto.
+        + apply (step_sound G predictions pred_sound chart
+                   (chart_pred' G tok tmatch start w) (chart_comp' G tok tmatch start w) i cols cols_sound); auto.
         + apply Fok_app; auto. apply step_fams_sound; auto.
     Qed.
   End Column.
@@ -166,7 +167,7 @@ Section Families.
         by (intros j x Hx; destruct (Nat.lt_ge_cases j i) as [Hlt|Hge];
             [apply (cl_sound _ _ _ _ _ _ _ _ Cl j x Hlt); left; exact Hx
             |rewrite nth_overflow in Hx by lia; destruct Hx]);
-      assert (S0 : pc_sound G tok tmatch start w i (mkPC col (rev col) scanq []))
+      assert (S0 : pc_sound chart i (mkPC col (rev col) scanq []))
         by (repeat split; cbn; auto; [intros x Hx; apply Sc; apply in_rev; auto | intros a []]);
       cbn [ExplicitAlgBuild.iparse_loop]; unfold ipredict_and_complete;
       destruct (ipc_loop (pc_fuel G i) i cols (mkPC col (rev col) scanq []) acc) as [[st2 acc1]|] eqn:E;
